@@ -628,9 +628,10 @@ BAD_KINDS = ['sc', 'v2', 'v3', 'v4', 'v6', 'R2', 'T2', 'R3', 'T3', 'm33', 'm66',
 
 
 class NeedObject(Exception):
-    def __init__(self, cname, multi=False):
+    def __init__(self, cname, multi=False, single=False):
         self.cname = cname
         self.multi = multi
+        self.single = single
 
 
 def gen_config(rng):
@@ -675,7 +676,7 @@ def _gen_array_spec(kind, rng, cfg):
             else 8 + rng.randrange(6), 'form': form}
 
 
-def make_spec(kind, world, cfg, rng, recv_cls):
+def make_spec(kind, world, cfg, rng, recv_cls, recv_ref=None):
     """Build an argument spec for one kind.  May raise NeedObject."""
     if kind in values.SCALAR_KINDS:
         s = {'lit': values.gen_scalar(kind, rng.randrange(12 if rng.random() < cfg.get('special_rate', 0.0)
@@ -729,8 +730,11 @@ def make_spec(kind, world, cfg, rng, recv_cls):
             refs = _heap_refs(world, lambda h: h.kind == want and h.n > 1)
         else:
             refs = _heap_refs(world, lambda h: h.kind == want)
+        refs = [j for j in refs if j != recv_ref]      # another object, not the receiver again
         if refs:
             return {'ref': rng.choice(refs)}
+        if rng.random() < 0.7:
+            raise NeedObject(recv_cls, multi=(kind == 'SAMEN'), single=(kind == 'SAME1'))
         return {'recv': True}
     if kind.startswith('obj:'):
         cname = kind[4:]
@@ -759,7 +763,7 @@ def make_spec(kind, world, cfg, rng, recv_cls):
     raise core.HarnessError('unknown kind %r' % (kind,))
 
 
-def gen_call(entry, world, cfg, rng, recv_ref=None, multi=False):
+def gen_call(entry, world, cfg, rng, recv_ref=None, multi=False, single=False):
     """Build a call record for a catalogue entry.  May raise NeedObject."""
     rec = {'op': 'call', 'key': entry.key, 'how': entry.how, 'target': entry.target,
            'name': entry.name, 'push': rng.random() < 0.75}
@@ -780,7 +784,8 @@ def gen_call(entry, world, cfg, rng, recv_ref=None, multi=False):
     if multi:
         t = [p for p in templates if any(k.startswith('L:') for _, _, ks in p for k in ks)]
         templates = t or templates
-    tmpl = rng.choice(templates)
+    # templates with parameters say more than the no-argument form: weight them accordingly
+    tmpl = core.weighted_choice(rng, [(t, 1.0 + 2.0 * len(t)) for t in templates])
     args, kwargs = [], {}
     positional = True
     prev = None
@@ -791,6 +796,8 @@ def gen_call(entry, world, cfg, rng, recv_ref=None, multi=False):
         ks = kinds
         if multi:
             ks = [k for k in kinds if k.startswith('L:')] or kinds
+        if single:
+            ks = [k for k in kinds if not k.startswith(('L:', 'LO:')) and k not in ('qN', 'tN')] or kinds
         kind = rng.choice(ks)
         if prev is not None and prev[0] in ks and rng.random() < cfg.get('dup_rate', 0.0) \
                 and ('ref' in prev[1] or 'recv' in prev[1] or ('gen' in prev[1] and args
@@ -799,7 +806,7 @@ def gen_call(entry, world, cfg, rng, recv_ref=None, multi=False):
             kind = prev[0]
             spec = prev[1] if 'gen' not in prev[1] else {'same': len(args) - 1}
         else:
-            spec = make_spec(kind, world, cfg, rng, recv_cls)
+            spec = make_spec(kind, world, cfg, rng, recv_cls, recv_ref)
         prev = (kind, spec)
         if positional and not optional and pname != 'file':
             args.append(spec)
@@ -848,14 +855,14 @@ def gen_call(entry, world, cfg, rng, recv_ref=None, multi=False):
     return rec
 
 
-def gen_ctor(cname, world, cfg, rng, multi=False, depth=0):
+def gen_ctor(cname, world, cfg, rng, multi=False, depth=0, single=False):
     C = catalogue()
     entry = C['by_key'].get('%s.__init__' % cname)
     if entry is None:
         raise core.HarnessError('no constructor entry for ' + cname)
     for _ in range(8):
         try:
-            rec = gen_call(entry, world, cfg, rng, multi=multi)
+            rec = gen_call(entry, world, cfg, rng, multi=multi, single=single)
             rec['push'] = True
             rec.pop('fault', None)
             return rec
@@ -899,11 +906,18 @@ def gen_step(world, cfg, rng):
         return {'op': 'redeliver', 'back': rng.choice([1, 1, 1, 1, 2, 2, 3, 5, 8, 15]),
                 'copy': rng.random() < 0.5,
                 'poke': rng.random() < cfg['poke_rate']}
-    entry = choose_entry(world, cfg, rng)
+    C = catalogue()
+    pending = getattr(world, 'pending_entry', None)
+    world.pending_entry = None
+    entry = C['by_key'][pending[0]] if pending else choose_entry(world, cfg, rng)
     try:
         return gen_call(entry, world, cfg, rng)
     except NeedObject as e:
-        return gen_ctor(e.cname, world, cfg, rng, multi=e.multi)
+        tries = pending[1] if pending else 0
+        if tries < 3:
+            # come back to this call once the object it needs exists
+            world.pending_entry = (entry.key, tries + 1)
+        return gen_ctor(e.cname, world, cfg, rng, multi=e.multi, single=e.single)
 
 
 def generate_and_run(seed, stats=None, cfg_override=None):
